@@ -120,6 +120,10 @@ LADDERS = [
     # same ladder without 0: branches cut by the known finding above stay covered for the positive pairs
     ("PageHinkley", "drift", {"delta": 0.0, "burn_in": 1}, "threshold", [1, 5, 20], 7, 9),
     ("PageHinkley", "drift", {"delta": 0.5, "burn_in": 0, "direction": "negative"}, "threshold", [0.5, 1, 5], 7, 9),
+    # longer burn-in: the looser setting crosses its threshold inside the burn-in, the stricter does not
+    ("PageHinkley", "drift", {"delta": 0.0, "burn_in": 3}, "threshold", [0.5, 1, 5], 7, 9),
+    ("PageHinkley", "drift", {"delta": 0.0, "burn_in": 3, "direction": "negative"}, "threshold", [0.5, 1, 5], 7, 9),
+    ("CUSUM", "drift", {"target": 1, "sd_hat": 2, "burn_in": 3, "delta": 0}, "threshold", [0.5, 1, 3], 7, 9),
     ("DDM", "drift", {"n_threshold": 2, "warning_scale": 1}, "drift_scale", [1.5, 2, 3], 13, 16),
     ("EDDM", "drift", {"n_threshold": 2, "warning_thresh": 0.95}, "drift_thresh", [0.9, 0.7, 0.5], 13, 16),
     ("STEPD", "drift", {"window_size": 2, "alpha_warning": 0.5}, "alpha_drift", [0.3, 0.1, 0.003], 11, 14),
@@ -132,10 +136,12 @@ LADDERS = [
     ("CDBD", "drift", {"detect_batch": 1, "statistic": "stdev", "subsets": 3}, "significance", [0.5, 1, 2], 4, 5),
     ("CDBD", "drift", {"detect_batch": 3, "statistic": "tstat", "subsets": 3}, "significance", [0.5, 0.2, 0.05], 4, 5),
     # warning clause: ladder tightest..loosest warning threshold
-    ("DDM", "warning", {"n_threshold": 2, "drift_scale": 3}, "warning_scale", [2.5, 2, 1], 13, 16),
-    ("EDDM", "warning", {"n_threshold": 2, "drift_thresh": 0.5}, "warning_thresh", [0.6, 0.8, 0.95], 13, 16),
-    ("STEPD", "warning", {"window_size": 2, "alpha_drift": 0.05}, "alpha_warning", [0.1, 0.3, 0.5], 11, 14),
-    ("LinearFourRates", "warning", {"time_decay_factor": 0.6, "detect_level": 0.02, "burn_in": 1, "num_mc": 20}, "warning_level", [0.1, 0.2, 0.4], 5, 6),
+    # (ladders deliberately cross the drift value: a warning threshold stricter than the drift threshold is legal)
+    ("DDM", "warning", {"n_threshold": 2, "drift_scale": 2}, "warning_scale", [3, 2.5, 1.5, 1], 13, 16),
+    ("EDDM", "warning", {"n_threshold": 2, "drift_thresh": 0.7}, "warning_thresh", [0.5, 0.6, 0.8, 0.95], 13, 16),
+    ("STEPD", "warning", {"window_size": 2, "alpha_drift": 0.1}, "alpha_warning", [0.01, 0.05, 0.3, 0.5], 11, 14),
+    ("STEPD", "warning", {"window_size": 3, "alpha_drift": 0.3}, "alpha_warning", [0.05, 0.2, 0.45], 11, 14),
+    ("LinearFourRates", "warning", {"time_decay_factor": 0.6, "detect_level": 0.1, "burn_in": 1, "num_mc": 20}, "warning_level", [0.02, 0.05, 0.2, 0.4], 5, 6),
 ]
 COST = {"KdqTreeBatch": 30, "LinearFourRates": 20, "HDDDM": 10, "CDBD": 8, "NNDVI": 8, "KdqTreeStreaming": 10}
 
